@@ -764,6 +764,8 @@ def behaviour_compare(ws, todo, allcases, by_name, xl, subdir, max_mism=200):
                     lines.append('%s %d %d %x' % (o[0], fidx[o[1]], o[2], o[3]))
                 elif o[0] == 'B':
                     lines.append('B ' + ' '.join('%x' % x for x in o[1]))
+                elif o[0] == 'I':
+                    lines.append('I')
                 else:
                     lines.append('R')
     cdir = ws.path(subdir)
@@ -834,7 +836,7 @@ def behaviour_compare(ws, todo, allcases, by_name, xl, subdir, max_mism=200):
     mism = []
     n_ops = 0
     n_scen = 0
-    stats = {'G': 0, 'W': 0, 'S': 0, 'R': 0, 'B': 0, 'panic': 0, 'ok': 0, 'err': 0}
+    stats = {'G': 0, 'W': 0, 'S': 0, 'R': 0, 'B': 0, 'I': 0, 'panic': 0, 'ok': 0, 'err': 0}
     distinct = set()
 
     def norm(s):
@@ -886,7 +888,7 @@ def behaviour_compare(ws, todo, allcases, by_name, xl, subdir, max_mism=200):
                             bad = 'Option<enum> getter returned %s for raw bits %d' % (tagd, rd)
                 if o[0] == 'B':
                     distinct.add((name, 'builder', tuple(o[1])))
-                elif o[0] != 'R' and (o[0] == 'G' or o[3] != 0 or r0 != 0):
+                elif o[0] not in 'RI' and (o[0] == 'G' or o[3] != 0 or r0 != 0):
                     distinct.add((name, o[1], o[0]))
                 if bad:
                     concrete = bad.startswith(('compiled code differs from the specification', 'dev and release', 'Option<enum>'))
